@@ -80,8 +80,8 @@ def diagnostics_stream(ck):
     """programs with one injected rule violation (C04's catalogue) in mixed layouts: where do the diagnostics point, and what does the snippet show"""
     from . import c04, c14
     n = 300 if ck.tier == "quick" else 3000
-    cases = sc.make_cases(ck, n, ["mixed", "mixed"], ck.rng, mutate=c04.inject)
-    ck.stream("diagnostics", description="programs with one violation injected from C04's catalogue (28 kinds) x 2 mixed layouts (tabs, CRLF, multi-byte text, comments, removed blocks). "
+    cases = sc.make_cases(ck, n, ["mixed", "tabs", "tabs"], ck.rng, mutate=c04.inject)
+    ck.stream("diagnostics", description="programs with one violation injected from C04's catalogue (28 kinds) x 3 layouts (mixed: tabs, CRLF, multi-byte text, comments, removed blocks; 2 x tabs: tabs before, inside and right after every element). "
               "Every diagnostic and note location must be the exact extent of an element the printer wrote (identifier, type reference, tag, integer, member, definition); "
               "the human-readable output (line numbers, snippet, underline) must equal the emitter model's byte for byte.")
     elines, meta = [], []
@@ -107,7 +107,7 @@ def diagnostics_stream(ck):
                         ck.violation("diagnostics", "diagnostic-not-on-an-element", names[fn]["text"], "%s %s: from the start of a written token to the end of one" % (d["code"], d["msg"][:60]), loc,
                                      detail="injected: %s" % c.what)
                         break
-        files = [("string-%d" % i, f["text"]) for i, f in enumerate(c.files)]
+        files = [("file-%d.slice" % i, f["text"]) for i, f in enumerate(c.files)]
         elines.append("emit human - " + " ".join("%s:%s" % (hx(nm), hx(t)) for nm, t in files))
         meta.append((c, files))
     o = core.run_impl("emit", elines, chunk=60, timeout=300, workers=8)
@@ -118,6 +118,8 @@ def diagnostics_stream(ck):
             ck.violation("diagnostics", "crash", sc.case_text(c), "emitter output", oo[:200])
             continue
         diags = parse_diags(parts[1])
+        if c.diags and not any(d["code"] != "E001" for d in diags or []):
+            ck.violation("diagnostics", "emitter-run-vacuous", sc.case_text(c), "the diagnostics of the compilation", str(diags)[:200], kind="correspondence")
         # the emitter was given files under other names; the model gets the same names and texts
         mlines.append(c14.model_line("human", files, diags))
         keep.append((c, parts[0]))
